@@ -86,7 +86,16 @@ class Ctx:
 
     # ------------------------------------------------------------ sharding
     def mine(self, i):
-        """Deterministic partition of enumerated (non-random) work."""
+        """Deterministic partition of enumerated (non-random) work.  Shards come in PAIRS (2j, 2j+1) that differ in their
+        interpreter configuration (plain / python -O, see driver.interpreter_optimize): both shards of a pair take the same
+        enumerated items, so that every enumerated corner case is judged under both configurations in every run."""
+        if self.nshards < 2 or self.nshards % 2:
+            return i % self.nshards == self.shard
+        return i % (self.nshards // 2) == self.shard // 2
+
+    def mine_once(self, i):
+        """Partition for HEAVY one-off scenarios (long listings, capacity runs, pre-emption sweeps): one shard only; which
+        configuration that shard has changes with the run seed."""
         return i % self.nshards == self.shard
 
     def scale(self, quick, thorough):
